@@ -89,6 +89,9 @@ func TestC19(t *testing.T) {
 			addr, stop := inprocServer()
 			stops = append(stops, stop)
 			scripted(func(r *vp.ScriptRunner) { fmt.Fprintf(r.Out, "1|1|tcp|%s|netrpc\n", addr) })
+		case "ok-nolisten":
+			// a valid line, but nothing listens at the announced address: Start succeeds, Client() cannot
+			scripted(func(r *vp.ScriptRunner) { r.Out.Write([]byte("1|1|tcp|127.0.0.1:1|netrpc\n")) })
 		case "fail-line":
 			scripted(func(r *vp.ScriptRunner) { r.Out.Write([]byte("garbage\n")) })
 		case "fail-proto":
